@@ -20,13 +20,13 @@ import (
 func init() { Registry["C04"] = C04 }
 
 type c04Decl struct {
-	kind string // func | struct | named | const | method
-	name string // Go name (method: method name)
-	recv int    // method: index of its struct
-	refs []c04Ref
-	self bool // a function or method that calls itself
-	extra string // const: second name declared by the same spec (const A, B uint64 = ...)
-	ptrRecv bool // method on a named integer type: pointer receiver
+	kind    string // func | struct | named | const | method
+	name    string // Go name (method: method name)
+	recv    int    // method: index of its struct
+	refs    []c04Ref
+	self    bool   // a function or method that calls itself
+	extra   string // const: second name declared by the same spec (const A, B uint64 = ...)
+	ptrRecv bool   // method on a named integer type: pointer receiver
 }
 type c04Ref struct {
 	to   int
